@@ -487,6 +487,10 @@ impl State {
     }
 }
 
+fn fd_open(fd: i32) -> bool {
+    unsafe { libc::fcntl(fd, libc::F_GETFD) != -1 }
+}
+
 fn fd_readable(fd: i32) -> bool {
     let mut p = libc::pollfd {
         fd,
@@ -902,6 +906,12 @@ impl Exec {
         let mut st = State::lock(self);
         st.rec(me as i32, Item::Point { kind, a });
         if kind == Kind::PipeWake {
+            if !fd_open(a as i32) {
+                st.violate(
+                    "C13/wake-after-release",
+                    format!("a wake-up write was attempted on descriptor {} which is already closed (the action outlived its self-pipe)", a),
+                );
+            }
             let tv = st.threads[me].vc;
             vc_join(&mut st.pipe_vc, &tv);
         } else if kind == Kind::PipeDrain && fd_readable(a as i32) {
